@@ -73,6 +73,17 @@ VUt(r) == LET zero == \E i \in 1..Len(r.args.a) : r.args.a[i][i] = 0 IN
 \* solutions too large for 32-bit arithmetic: exact Fraction check by the harness
 VSolveBig(r) == IF r.raised # "none" THEN "Total"
                 ELSE IF ~r.obs.none /\ ~r.obs.satisfies THEN "SolutionSatisfiesSystem" ELSE "ok"
+\* small-root finders: only true roots below the bound are returned; the planted root is found when the unknown part is
+\* below the documented reach of the default lattice with margin (fractions of the size of p, in percent)
+RootMust(r) == CASE r.args.kind \in {"uni_high", "uni_low", "uni_neg"} -> r.args.pct <= 39
+                 [] r.args.kind = "bi_modp" -> r.args.pct <= 11        \* each of two unknown chunks
+                 [] r.args.kind = "bi_modn" -> r.args.pct <= 33
+                 [] OTHER -> FALSE
+VRoot(r) == IF r.raised # "none" THEN "Total"
+            ELSE IF ~r.obs.none /\ ~r.obs.is_root THEN "ReturnedRootIsARoot"
+            ELSE IF ~r.obs.none /\ ~r.obs.in_bound THEN "ReturnedRootBelowBound"
+            ELSE IF r.obs.none /\ RootMust(r) THEN "PlantedRootFound"
+            ELSE "ok"
 VAux(r) == IF r.raised # "none" THEN "Total" ELSE IF ~r.obs.ok THEN "AuxFormula" ELSE "ok"
 Verdict(r) ==
   CASE r.ev = "inv" -> VInv(r)
@@ -88,6 +99,7 @@ Verdict(r) ==
     [] r.ev = "utsolve" -> VUt(r)
     [] r.ev = "solve_big" -> VSolveBig(r)
     [] r.ev = "aux" -> VAux(r)
+    [] r.ev = "root" -> VRoot(r)
     [] OTHER -> "UnknownEvent"
 TInit == tid = 1 /\ RegInit /\ n = 0 /\ k = 1
 TNext == /\ tid <= NRecs
